@@ -27,7 +27,12 @@ mod packet_tests;
 pub use send_rate::{SendRateComp, FeedbackData};
 
 const INITIAL_RTT_ESTIMATE_MS: u64 = 150;
-const INITIAL_RTO_ESTIMATE_MS: u64 = 4*INITIAL_RTT_ESTIMATE_MS;
+// Until the first feedback arrives, sent frames are remembered for as long as the initial
+// no-feedback timer waits for their acknowledgement (2 s, see send_rate.rs). Forgetting them
+// earlier makes a first acknowledgement that takes longer than that unverifiable: no RTT sample
+// is ever taken, the send rate is halved at every expiry even though the sender is idle, and the
+// keepalive interval (which follows the RTO) grows past the peer's timeout.
+const INITIAL_RTO_ESTIMATE_MS: u64 = 2000;
 const MIN_SYNC_TIMEOUT_MS: u64 = 2000;
 
 pub trait FrameSink {
